@@ -72,6 +72,31 @@ var badThresholds = func(n int) []int {
 	return []int{-1, n, n + 1, math.MaxUint32, math.MaxUint32 + 1}
 }
 
+
+// agedMaterial: start-time validation must not depend on the key being fresh - in half of the cases
+// the material has been through a derivation or a refresh (which must carry threshold, tables and
+// identifiers over unchanged).
+func agedMaterial(c *fw.Ctx, m *scen.Material) *scen.Material {
+	switch c.S.Draw(4, "material-age") {
+	case 2:
+		if m2, errs := m.DeriveChild(drawIndex(c)); len(errs) == 0 {
+			c.Probe("start_checked_on_derived_material", 1)
+			return m2
+		}
+	case 3:
+		if m.Proto != scen.CMP {
+			rs := scen.NewSession(c, "age-rf", m.RefreshMk([]byte(c.Label("sid", "age-rf"))), nil)
+			rs.Net.Policy = sim.FIFO{}
+			rs.Net.Run()
+			if vals, errs := rs.Results(); len(errs) == 0 {
+				c.Probe("start_checked_on_refreshed_material", 1)
+				return scen.Collect(m.Proto, m.IDs, m.T, vals)
+			}
+		}
+	}
+	return m
+}
+
 func runC20(c *fw.Ctx) {
 	fam := c.S.Draw(3, "family") // 0 frost, 1 doerner, 2 cmp
 	if fam == 2 && !c.S.Bool(cmpRate(c, 250), 1000, "cmp") {
@@ -282,7 +307,7 @@ func badFrost(c *fw.Ctx) *badCase {
 		if t == 0 && c.S.Draw(2, "t-bump") == 1 && n > 1 {
 			t = 1
 		}
-		m := scen.PrepMaterial(c, p, ids, t, "prep")
+		m := agedMaterial(c, scen.PrepMaterial(c, p, ids, t, "prep"))
 		msg := scen.DrawMsg(c)
 		signers := scen.DrawSubset(c.S, ids, t+1)
 		classes := []string{"signers-too-few", "signers-non-shareholder", "signers-duplicate", "signers-without-self", "message-nil", "message-empty", "config-nil", "config-zero-value", "config-stripped-share", "config-stripped-table", "signers-foreign-replaces-shareholder"}
@@ -545,7 +570,7 @@ func badCMP(c *fw.Ctx) *badCase {
 		}
 		return bc
 	}
-	m := scen.DealCMP(c, ids, t, "prep")
+	m := agedMaterial(c, scen.DealCMP(c, ids, t, "prep"))
 	stripped := func(cfg *cmp.Config, class string) *cmp.Config {
 		switch class {
 		case "config-nil":
